@@ -46,6 +46,7 @@ import Driver.Chmap
 import Driver.Probe
 import Driver.VocBlocks
 import Driver.ShortIo
+import Driver.StageLoop
 open Sf
 
 def lawOf (s : String) : Option G711.Law :=
@@ -137,4 +138,5 @@ def main (args : List String) : IO UInt32 := do
   | "probe" :: rest => ProbeDriver.main rest
   | "vocblocks" :: rest => VocBlocksDriver.main rest
   | "shortio" :: rest => ShortIoDriver.main rest
+  | "stage" :: rest => StageLoopDriver.main rest
   | _ => IO.eprintln "usage: sfmodel <g711|...> ..."; return 2
